@@ -1133,6 +1133,15 @@ def _in_place_classes(ds):
             'children': [_in_place_classes(c) for c in ds.ContentSequence] if 'ContentSequence' in ds else []}
 
 
+def _content_nodes(ds):
+    """the data set objects of the content tree, pre-order"""
+    out = [ds]
+    if 'ContentSequence' in ds:
+        for c in ds.ContentSequence:
+            out.extend(_content_nodes(c))
+    return out
+
+
 def _source(it, src):
     return plain_copy(it) if src == 'memory' else through_bytes(it, src == 'bytes-implicit')
 
@@ -1161,6 +1170,7 @@ def _route(ctx, where, it, d, src, entry, copy, want_mem, want_file):
             ds = given.ContentSequence[0]
     ck = {} if copy == 'default' else {'copy': copy == 'true'}
     before = _snapshot(given)
+    nodes_before = _content_nodes(given)
     try:
         if entry == 'class':
             back = getattr(vtm, CLASS[vt]).from_dataset(ds, **ck)
@@ -1195,9 +1205,12 @@ def _route(ctx, where, it, d, src, entry, copy, want_mem, want_file):
     else:
         want_cls = expected(d)
         want_tree = _strip_keys(want_cls) if entry != 'parent' else {'class': 'ContainerContentItem', 'children': [_strip_keys(want_cls)]}
-        if top is not given or _in_place_classes(given) != want_tree:
+        nodes_after = _content_nodes(given)
+        same_nodes = len(nodes_before) == len(nodes_after) and all(x is y for x, y in zip(nodes_before, nodes_after))
+        if top is not given or _in_place_classes(given) != want_tree or not same_nodes:
             ctx.fail(where, {'what': f'{label}: copy=False did not convert the caller\'s data set in place',
-                             'same object': top is given, 'classes': str(_in_place_classes(given))[:300]}, site='copy-false-not-in-place')
+                             'same object': top is given, 'nested data sets are the caller\'s own': same_nodes,
+                             'classes': str(_in_place_classes(given))[:300]}, site='copy-false-not-in-place')
     ctx.hist('parse_route', label)
     return True
 
